@@ -362,4 +362,30 @@ theorem C15_nids_counterexample :
     popPredHetero false [[1], [2], [3]] [[3], [3], [1]] = [[3], [3], [1]] := by
   decide
 
+/-! ## the seed of the wrapped model in `PriorPredictiveModel.sample` -/
+
+/-- the seed `PriorPredictiveModel.sample` hands to the wrapped model for sample ID `k + 1` under the
+    integer seed `s` (`base_seed + sample_id`) -/
+def priorInnerSeed (s : Int) (k : Nat) : Int := s + (k + 1)
+
+/-- One iteration of the loop over sample IDs, for EVERY integer seed `s` (zero and negative included — the
+    code tests `seed is not None`, never the truth value of the seed): one `log_prior.sample()` on the
+    global generator, then the wrapped model with the seed `s + sample_id`. -/
+theorem C15_prior_inner_seed (v : Variant) (spec : PredSpec) (nT n : Nat) (s : Int) (k : Nat)
+    (ks : List Nat) (w : World) :
+    priorLoop v spec nT n (some s) (k :: ks) w =
+      (let cw := globCall .prior 1 w
+       let r := anyPred v spec nT n (.int (priorInnerSeed s k)) cw.2
+       let rest := priorLoop v spec nT n (some s) ks r.2
+       (Out.append ⟨keepFirst k [⟨w.glob.stream, w.glob.ctr, 0⟩] r.1.1.cells, cw.1 :: r.1.1.calls, [], false⟩
+          rest.1, rest.2)) := rfl
+
+/-- Every sample ID gets its own noise stream: for every integer seed the seeds of the wrapped model's calls
+    for two different sample IDs differ, and none of them is the seed of the prior draws. -/
+theorem C15_prior_own_seed_per_sample (s : Int) {j k : Nat} (h : j ≠ k) :
+    priorInnerSeed s j ≠ priorInnerSeed s k ∧ priorInnerSeed s k ≠ s := by
+  unfold priorInnerSeed; omega
+
+example : priorInnerSeed 0 0 = 1 ∧ priorInnerSeed 0 1 = 2 := by decide
+
 end ChiModel.Pred
